@@ -337,6 +337,8 @@ def main():
     if broken:
         for b in broken:
             log("BROKEN: " + b)
+        if not keep:
+            shutil.rmtree(scratch, ignore_errors=True)
         sys.exit(2)
     if ev_n == 0:
         log("BROKEN: no evaluations recorded")
